@@ -186,6 +186,17 @@ impl Incremental {
             self.miss.insert(path.src.clone());
             return false;
         };
+        // A well-formed fragment of another file, or of other contents (damaged
+        // manifest, replaced blob), must not be restored under this entry.
+        let current = self.hashes.get(&path.src);
+        if fragment.src_path != path.src
+            || current
+                .is_none_or(|x| *x != veryl_cache::content_hash(fragment.source_text.as_bytes()))
+        {
+            debug!("Fragment does not belong to the source ({src})");
+            self.miss.insert(path.src.clone());
+            return false;
+        }
 
         // What analyze_pass1 would otherwise register for the project.
         let prj: StrId = path.prj.as_str().into();
